@@ -84,6 +84,23 @@ Definition hd3_small (l : bytes) : bool :=
   | _ => false
   end.
 
+Lemma hd3_small_false_1 : forall a r, 128 <= a -> hd3_small (a :: r) = false.
+Proof.
+  intros. destruct r as [|b [|c r]]; cbn [hd3_small]; try reflexivity.
+  replace (a <? 128) with false by lia. reflexivity.
+Qed.
+
+Lemma hd3_small_false_2 : forall a b r, 128 <= b -> hd3_small (a :: b :: r) = false.
+Proof.
+  intros. destruct r as [|c r]; cbn [hd3_small]; try reflexivity.
+  replace (b <? 128) with false by lia. rewrite andb_false_r. reflexivity.
+Qed.
+
+Lemma hd3_small_false_3 : forall a b c r, 128 <= c -> hd3_small (a :: b :: c :: r) = false.
+Proof.
+  intros. cbn [hd3_small]. replace (c <? 128) with false by lia. apply andb_false_r.
+Qed.
+
 Definition decode_header_slow (l : bytes) : option (N * N * N * bytes) :=
   match varint32_read l with
   | None => None
@@ -138,9 +155,8 @@ Proof.
     + rewrite !app_length. pose proof (varint32_write_nonempty s).
       pose proof (varint32_write_nonempty ns). pose proof (varint32_write_nonempty vl). lia.
     + rewrite (varint32_write_small s), (varint32_write_small ns) by assumption.
-      destruct (varint32_write_big vl S3) as [t ->]. cbn [app hd3_small].
-      replace (vl mod 128 + 128 <? 128) with false by lia.
-      rewrite !andb_false_r. reflexivity.
+      destruct (varint32_write_big vl S3) as [t ->]. cbn [app].
+      apply hd3_small_false_3. lia.
   - rewrite decode_header_slow_eq.
     + unfold decode_header_slow.
       rewrite varint32_read_write by assumption.
@@ -150,12 +166,8 @@ Proof.
     + rewrite !app_length. pose proof (varint32_write_nonempty s).
       pose proof (varint32_write_nonempty ns). pose proof (varint32_write_nonempty vl). lia.
     + rewrite (varint32_write_small s) by assumption.
-      destruct (varint32_write_big ns S2) as [t ->].
-      pose proof (varint32_write_nonempty vl).
-      destruct (varint32_write vl) as [|c r]; [cbn [length] in *; lia|].
-      cbn [app hd3_small].
-      replace (ns mod 128 + 128 <? 128) with false by lia.
-      rewrite !andb_false_r. reflexivity.
+      destruct (varint32_write_big ns S2) as [t ->]. cbn [app].
+      apply hd3_small_false_2. lia.
   - rewrite decode_header_slow_eq.
     + unfold decode_header_slow.
       rewrite varint32_read_write by assumption.
@@ -164,18 +176,8 @@ Proof.
       replace (nlen tail <? ns + vl) with false by lia. reflexivity.
     + rewrite !app_length. pose proof (varint32_write_nonempty s).
       pose proof (varint32_write_nonempty ns). pose proof (varint32_write_nonempty vl). lia.
-    + destruct (varint32_write_big s S1) as [t ->].
-      pose proof (varint32_write_nonempty ns). pose proof (varint32_write_nonempty vl).
-      destruct t as [|b t].
-      * destruct (varint32_write ns) as [|b r]; [cbn [length] in *; lia|].
-        destruct r as [|c r].
-        -- destruct (varint32_write vl) as [|c r]; [cbn [length] in *; lia|].
-           cbn [app hd3_small]. replace (s mod 128 + 128 <? 128) with false by lia. reflexivity.
-        -- cbn [app hd3_small]. replace (s mod 128 + 128 <? 128) with false by lia. reflexivity.
-      * destruct t as [|c t].
-        -- destruct (varint32_write ns) as [|c r]; [cbn [length] in *; lia|].
-           cbn [app hd3_small]. replace (s mod 128 + 128 <? 128) with false by lia. reflexivity.
-        -- cbn [app hd3_small]. replace (s mod 128 + 128 <? 128) with false by lia. reflexivity.
+    + destruct (varint32_write_big s S1) as [t ->]. cbn [app].
+      apply hd3_small_false_1. lia.
 Qed.
 
 (* ------------------------------------------------------------------ *)
